@@ -99,6 +99,21 @@ def search(res, tier, seed, deep=False):
             near = d.apply_location(o2, hist, fut, time_obs=t, time_cm_hist=t, time_cm_future=t)
             o3 = obs.copy(); o3[100 + L // 2 + 1] += 50
             out = d.apply_location(o3, hist, fut, time_obs=t, time_cm_hist=t, time_cm_future=t)
+        # ... and across the turn of a leap year: centre 3 January, L = 15 reaches back to 27 December (day 362 of 366)
+        n2 = 366 + 365
+        t2 = create_array_of_consecutive_dates(n2, np.datetime64("2000-01-01"))
+        ob2 = 280 + np.arange(n2) % 7.0; hi2 = ob2 + 1; fu2 = ob2 + 2
+        with warnings.catch_warnings():
+            warnings.simplefilter("ignore")
+            b2 = d.apply_location(ob2, hi2, fu2, time_obs=t2, time_cm_hist=t2, time_cm_future=t2)
+            oa = ob2.copy(); oa[361] += 50          # 27 December 2000: 7 days before 3 January
+            na = d.apply_location(oa, hi2, fu2, time_obs=t2, time_cm_hist=t2, time_cm_future=t2)
+            ob = ob2.copy(); ob[360] += 50          # 26 December 2000: 8 days before
+            nb = d.apply_location(ob, hi2, fu2, time_obs=t2, time_cm_hist=t2, time_cm_future=t2)
+        res.case(("tightness-year-turn",))
+        if na[2] == b2[2] or nb[2] != b2[2]:
+            report("window-reach-year-turn", dict(L=L, S=S, centre="3 January", leap_year=2000), dict(at_half=float(na[2] - b2[2]), beyond=float(nb[2] - b2[2])),
+                   "across the turn of a leap year the window must use data up to L//2 days from its centre (counting day 366) and none beyond")
         res.case(("tightness",))
         if near[100] == base[100] or out[100] != base[100]:
             report("window-reach", dict(L=L, S=S), dict(at_half=float(near[100] - base[100]), beyond=float(out[100] - base[100])),
